@@ -329,6 +329,66 @@ def _(T):
                 sky_types=str_list(module_assign(ptree, "base_sky_types")))
 
 
+
+def name_test(node, var):
+    """Translate a boolean combination of `'lit' in var` / `var == 'lit'` into a NameTest (as nested lists)."""
+    if isinstance(node, ast.BoolOp):
+        op = "and" if isinstance(node.op, ast.And) else "or"
+        acc = name_test(node.values[0], var)
+        for v in node.values[1:]:
+            acc = [op, acc, name_test(v, var)]
+        return acc
+    if isinstance(node, ast.UnaryOp) and isinstance(node.op, ast.Not):
+        return ["not", name_test(node.operand, var)]
+    if isinstance(node, ast.Compare) and len(node.ops) == 1:
+        l, r, op = node.left, node.comparators[0], node.ops[0]
+        if isinstance(l, ast.Constant) and isinstance(l.value, str) and isinstance(r, ast.Name) and r.id == var:
+            if isinstance(op, ast.In):
+                return ["has", l.value]
+            if isinstance(op, ast.NotIn):
+                return ["not", ["has", l.value]]
+        if isinstance(l, ast.Name) and l.id == var and isinstance(r, ast.Constant) and isinstance(r.value, str):
+            if isinstance(op, ast.Eq):
+                return ["eq", r.value]
+            if isinstance(op, ast.NotEq):
+                return ["not", ["eq", r.value]]
+    raise Miss(f"not a name test: {ast.dump(node)[:100]}")
+
+
+def lean_name_test(t):
+    if t[0] in ("has", "eq"):
+        return f"(.{t[0]} {lean_str(t[1])})"
+    if t[0] == "not":
+        return f"(.not {lean_name_test(t[1])})"
+    return f"(.{t[0]} {lean_name_test(t[1])} {lean_name_test(t[2])})"
+
+
+@extractor("results_tests")
+def _(T):
+    tree, _ = T["results.py"]
+    fn = find_func(tree, "_parse_injested_data", "PySersicResults")
+    wrap = drop = model = None
+    for node in fn.body:
+        if isinstance(node, ast.For) and isinstance(node.target, ast.Name):
+            var = node.target.id
+            for st in node.body:
+                if isinstance(st, ast.If) and any(getattr(getattr(c, "func", None), "attr", None) == "remainder"
+                                                    or isinstance(c, ast.Mod) for c in ast.walk(st)):
+                    wrap = name_test(st.test, var)
+        if isinstance(node, ast.If):
+            for sub in node.body:
+                if isinstance(sub, ast.For) and isinstance(sub.target, ast.Name):
+                    var = sub.target.id
+                    for st in sub.body:
+                        if isinstance(st, ast.If):
+                            drop = name_test(st.test, var)
+                            if st.orelse and isinstance(st.orelse[0], ast.If):
+                                model = ["and", ["not", drop], name_test(st.orelse[0].test, var)]
+    if wrap is None or drop is None or model is None:
+        raise Miss("wrap / purge loops of _parse_injested_data not recognised")
+    return dict(wrap=wrap, drop=drop, model=model)
+
+
 # ----------------------------------------------------------------------------
 # Lean emission
 # ----------------------------------------------------------------------------
@@ -353,6 +413,7 @@ def emit(c):
     A("   Regenerated on every run of ./check; theorems in Props/ are re-checked against it. -/")
     A("import PysersicModel.Scalar")
     A("import PysersicModel.IO.Validate")
+    A("import PysersicModel.IO.Results")
     A("")
     A("namespace Pysersic.Gen")
     A("")
@@ -386,6 +447,12 @@ def emit(c):
     A("def profileTypesRender : List String := " + lean_list([lean_str(x) for x in tl["profile_types_render"]]))
     A("def profileTypesPriors : List String := " + lean_list([lean_str(x) for x in tl["profile_types_priors"]]))
     A("def skyTypes : List String := " + lean_list([lean_str(x) for x in tl["sky_types"]]))
+    A("")
+    rt = c["results_tests"]
+    A("/-- name tests of `_parse_injested_data` (results.py), translated from the source -/")
+    A(f"def wrapTest : Results.NameTest := {lean_name_test(rt['wrap'])}")
+    A(f"def dropTest : Results.NameTest := {lean_name_test(rt['drop'])}")
+    A(f"def modelTest : Results.NameTest := {lean_name_test(rt['model'])}")
     A("")
     A("end Pysersic.Gen")
     return "\n".join(L) + "\n"
